@@ -86,15 +86,23 @@ func split(s string) []string {
 	return splitFresh(s)
 }
 
+// every slice handed to the library is a window [0:n] of a larger backing array whose tail holds sentinels: a library
+// function that appends to (or otherwise writes beyond) its argument would overwrite them — the caller's neighbouring data
+const spare = 3
+
 func splitFresh(s string) []string {
-	var r []string
-	if s == "[]" {
-		r = []string{}
-	} else {
-		r = strings.Split(s, ",")
+	var parts []string
+	if s != "[]" {
+		parts = strings.Split(s, ",")
 	}
+	full := make([]string, len(parts)+spare)
+	copy(full, parts)
+	for i := len(parts); i < len(full); i++ {
+		full[i] = "\x00sentinel"
+	}
+	r := full[:len(parts)]
 	if trackSlices {
-		tracked = append(tracked, [2][]string{r, append([]string(nil), r...)})
+		tracked = append(tracked, [2][]string{full, append([]string(nil), full...)})
 	}
 	return r
 }
